@@ -186,6 +186,8 @@ def run_history(hist, root, pack_after=None, keep_open=False, referencesf=None):
                         pending[oid] = tid
                         if data is not None:
                             pdata[oid] = (tid, data)
+                        else:
+                            pdata.pop(oid, None)      # the transaction's last word on oid is "does not exist"
                         issued.append(('data' if data is not None else 'del', op[1], data))
                     elif op[0] == 'undo':
                         if len(undoable) < op[1]:
